@@ -8,9 +8,10 @@
 #include <sys/wait.h>
 #include <pthread.h>
 
-enum { K_KEY, K_VALUE, K_CONT, K_SECTION, K_CBEFORE, K_CAFTER, K_CBLOCK2, K_CBLOCK3, K_DROPNAME, K_PATH, K_OPTION, K_TOOLARG, K_MANY, K_N };
+enum { K_KEY, K_VALUE, K_CONT, K_SECTION, K_CBEFORE, K_CAFTER, K_CBLOCK2, K_CBLOCK3, K_DROPNAME, K_PATH, K_OPTION, K_TOOLARG, K_MANY, K_POSTFIX, K_N };
 static const char *KN[K_N] = { "key", "value", "continuation line", "section name", "comment before", "comment after", "second line of a comment block", "all three lines of a comment block", "drop-in file name",
-                               "path length", "option string", "econftool --delimiters", "16 entries, each with value, comment before and comment after of this length" };
+                               "path length", "option string", "econftool --delimiters", "16 entries, each with value, comment before and comment after of this length",
+                               "drop-in directory postfix (second item of a list whose first item is .d)" };
 static const size_t LEN[] = { 1, 8190, 8191, 8192, 8193, 8194, 16384, 65536, 262144, 1048576 };
 static const size_t PLEN[] = { 4000, 4090, 4094, 4095, 4096, 4097, 4098, 4200 };
 static const size_t NLEN[] = { 100, 254, 255 };
@@ -22,7 +23,8 @@ static void gen(void)
   kind = mc_choose(K_N);
   if (kind == K_DROPNAME) li = mc_choose(3);
   else if (kind == K_PATH) li = mc_choose(8);
-  else if (kind == K_MANY) li = 7;                    /* 64 KiB per field, 3 MiB in the file */
+  else if (kind == K_MANY) li = 7;
+  else if (kind == K_POSTFIX) li = mc_choose(3);                    /* 64 KiB per field, 3 MiB in the file */
   else if (kind == K_TOOLARG) li = mc_choose(8);      /* one argv string is limited to 128 KiB by the kernel */
   else li = mc_choose(with_1m ? 10 : 9);
 }
@@ -359,6 +361,47 @@ out:
   sb_free(&f);
 }
 
+/* a list of drop-in directory postfixes in which a later item is longer than the first one: each item is used whole */
+static const size_t POSTLEN[3] = { 3, 100, 240 };
+static void postfix_case(const char *sig)
+{
+  size_t L = POSTLEN[li];
+  char dir[400], d1[500], d2[800], p[1000];
+  char *post = pattern(L, 11); post[0] = '.';
+  snprintf(dir, sizeof dir, "%s/pf", mc_work); mkdir(dir, 0755);
+  snprintf(d1, sizeof d1, "%s/cfg.d", dir); mkdir(d1, 0755);
+  snprintf(d2, sizeof d2, "%s/cfg%s", dir, post); mkdir(d2, 0755);
+  snprintf(p, sizeof p, "%s/cfg.conf", dir); mc_write_file(p, "main=1\n", 7);
+  snprintf(p, sizeof p, "%s/10-a.conf", d1); mc_write_file(p, "first=1\n", 8);
+  snprintf(p, sizeof p, "%s/20-b.conf", d2); mc_write_file(p, "second=1\n", 9);
+  for (int way = 0; way < 2 && !mc_case_failed; way++) {
+    econf_file *kf = NULL; econf_err rc;
+    if (way == 0) {
+      sbuf o = {0}; sb_printf(&o, "PARSING_DIRS=%s;CONFIG_DIRS=.d:%s", dir, post);
+      rc = econf_newKeyFile_with_options(&kf, o.s); sb_free(&o);
+      if (!rc) rc = econf_readConfig(&kf, NULL, NULL, "cfg", "conf", "=", "#");
+    } else {
+      const char *lst[3] = { ".d", post, NULL };
+      econf_set_conf_dirs(lst);
+      rc = econf_readDirs(&kf, "/nonexistent-verif-c14", dir, "cfg", "conf", "=", "#");
+      const char *none[1] = { NULL }; econf_set_conf_dirs(none);
+    }
+    const char *wn = way ? "econf_set_conf_dirs + econf_readDirs" : "CONFIG_DIRS option + econf_readConfig";
+    if (rc || !kf) mc_fail(sig, "%s with the postfix list {.d, <%zu bytes>} failed: %d; %s", wn, L, (int)rc, sig);
+    else {
+      char *v = NULL;
+      if (econf_getStringValue(kf, NULL, "first", &v) || !v) mc_fail(sig, "%s: the drop-in below the first postfix is missing; %s", wn, sig);
+      free(v); v = NULL;
+      if (econf_getStringValue(kf, NULL, "second", &v) || !v) mc_fail(sig, "%s: the drop-in below the second postfix (%zu bytes, longer than the first) is missing; %s", wn, L, sig);
+      free(v);
+    }
+    if (kf) econf_freeFile(kf);
+    mc_st->libcalls += 3;
+  }
+  { char cmd[600]; snprintf(cmd, sizeof cmd, "rm -rf '%s'", dir); if (system(cmd) != 0) mc_die("cleanup"); }
+  free(post);
+}
+
 static void toolarg_case(const char *sig)
 {
   size_t L = LEN[li];
@@ -397,13 +440,14 @@ static void *exec_on_small_stack(void *arg)
   else if (kind == K_DROPNAME) dropname_case(sig);
   else if (kind == K_PATH) path_case(sig);
   else if (kind == K_MANY) many_case(sig);
+  else if (kind == K_POSTFIX) postfix_case(sig);
   return NULL;
 }
 
 static void exec(void)
 {
   char *sig = exec_sig;
-  size_t L = kind == K_DROPNAME ? NLEN[li] : kind == K_PATH ? PLEN[li] : LEN[li];
+  size_t L = kind == K_DROPNAME ? NLEN[li] : kind == K_PATH ? PLEN[li] : kind == K_POSTFIX ? POSTLEN[li] : LEN[li];
   snprintf(sig, sizeof exec_sig, "field=%s length=%zu", KN[kind], L);
   snprintf(mc_case_sig, sizeof mc_case_sig, "%s", sig);
   mc_log("%s\n", sig);
